@@ -231,6 +231,8 @@ def coq_eval_cases(prop, check_module, terms, preamble="", shard=400, timeout=90
     (agrees, prop_ok) or raises RuntimeError with the coqc output."""
     if not terms:
         return []
+    # spread over all cores: at most `shard` cases per coqc process, at least ~8
+    shard = max(8, min(shard, -(-len(terms) // NCPU)))
     shards = [terms[i:i + shard] for i in range(0, len(terms), shard)]
 
     def work(ix):
